@@ -332,6 +332,14 @@ func init() {
 					feat = true
 					c.Count("opts:maxcid-boundary")
 				}
+				switch r.Intn(12) { // option values passed as an explicit zero / above the cap
+				case 0: // MaxIndexCidSize(0): ApplyOptions puts the 2 KiB default back
+					o.maxCid = 0
+					c.Count("opts:explicit-zero-maxcid")
+				case 1: // above what an index record can hold: capped
+					o.maxCid = pick(r, []uint64{32<<20 - 7, 1 << 40})
+					c.Count("opts:maxcid-above-cap")
+				}
 				if r.Chance(10) { // header limit at the boundary
 					o.maxH = uint64(a.hlen - uvarintLen(uint64(a.hlen-1)))
 					if r.Bool() {
@@ -345,7 +353,16 @@ func init() {
 				if o.zeof {
 					c.Count("opts:zero-length-as-eof")
 				}
-				for _, codec := range c03Codecs {
+				if r.Chance(4) { // MaxAllowedHeaderSize(0) is NOT defaulted: every header is too large
+					o.maxH = 0
+					expect = VL{VT("none")}
+					c.Count("opts:explicit-zero-maxheader")
+				}
+				rowCodecs := c03Codecs
+				if rep == 1 { // UseIndexCodec(0): ApplyOptions puts car-multihash-index-sorted back
+					rowCodecs = append(append([]uint64(nil), c03Codecs...), 0)
+				}
+				for _, codec := range rowCodecs {
 					for kind := uint64(0); kind < 10; kind++ {
 						emitIdxGen(c, kind, o, a.file, codec, qs, expect, len(a.blks) >= 2 && feat)
 					}
@@ -360,7 +377,7 @@ func init() {
 					if a.lyingIndex {
 						exp = VL{VT("none")}
 					} else if a.realIndex {
-						if o.storeID || o.maxCid != defaultGOpts.maxCid || codec != 0x0401 {
+						if o.storeID || (o.maxCid != defaultGOpts.maxCid && o.maxCid != 0) || (codec != 0x0401 && codec != 0) {
 							exp = VL{VT("none")}
 						} else if len(exp) == 5 {
 							exp = VL{exp[0], exp[1], exp[2], exp[3], vbool(false)} // nothing is scanned: padding is not seen
@@ -382,6 +399,19 @@ func init() {
 			if n%3 == 0 {
 				c03Malformed(c, r, a, qs, 10)
 			}
+		}
+		// ApplyOptions itself on random option lists (kind applyopts)
+		for n := 0; n < 400*c.Scale; n++ {
+			r := c.R.Fork()
+			var l []c03Opt
+			for k := r.Intn(9); k > 0; k-- {
+				l = append(l, c03GenOpt(r))
+			}
+			if r.Chance(20) && len(l) > 0 { // the same list twice
+				l = append(l, l...)
+			}
+			c.Emit("applyopts", c03OptsVal(l), c03ApplyOptionsObs(l), len(l) >= 2)
+			c.Count("apply-options")
 		}
 		// an archive with more than 16 384 indexable sections (kind idxgenbig; layer-B expectation only)
 		c03BigArchives(c)
